@@ -382,6 +382,9 @@ func pipeDelivery(l *pipeLog, rng *rand.Rand, nkeys, nposters, nposts int, useCh
 			if rng.Intn(2) == 0 {
 				time.Sleep(time.Duration(rng.Intn(400)) * time.Microsecond)
 			}
+			if rng.Intn(3) == 0 { // a resize notification (the size may be the same) between the two pieces
+				tty.SetSize(200+rng.Intn(2), 60, true)
+			}
 			tty.Inject(b[k:])
 		} else {
 			tty.Inject(b)
